@@ -8,10 +8,11 @@ from ipv import Unit, Ob, Undecided, VERIF
 KINDS = """break continue asm delete_constant static_assert requires restriction truth class union enum namespace closure
  pointer reference rvalue_reference array qualified function forall ptr_to_member tor as_type decltype
  cast static_cast dynamic_cast const_cast reinterpret_cast literal rewrite where where_region expr_stmt labeled_stmt goto while do for for_in handler
- phased_evaluation id_expr_decl expr_list parameter_list""".split()
+ phased_evaluation id_expr_decl expr_list parameter_list literal_cv id_expr_reference expr_list_retyped""".split()
 TEXT = dict(truth='true and false have type bool', delete_constant='the deleted-definition constant has type void', expr_list='the type of an expression list is the product of its current elements\' types in order, also after a later addition',
             parameter_list='the type of a parameter list is the product of its current parameters\' types in order, also after a later addition', id_expr_decl='an id-expression of a declaration has that declaration\'s type',
-            where_region='a where-expression with local declarations has the type of its main expression', handler='a handler has the type of its body')
+            literal_cv='a literal reports the target type it was requested with, also when the same spelling exists at the unqualified / qualified version of that type', id_expr_reference='an id-expression of a declaration of reference type has that reference type',
+            expr_list_retyped='the product type of an expression list follows the current type of an element that was given another type after it was first read', where_region='a where-expression with local declarations has the type of its main expression', handler='a handler has the type of its body')
 
 
 def build(tier, seed):
@@ -24,14 +25,18 @@ def build(tier, seed):
         def gen(unit):
             fn = unit.by_name[unit.resolve_name('t_' + k)]
             ret, cname, cps = F.cparams(fn['sig'])
-            t = F.PRELUDE_C + F.ext_models(unit) + 'void h_%s(void)\n{\n' % k
+            own = [v['name'] + '__ext' for v in unit.json['virtual_stubs'] if v['method'] == 'ipr::String::characters'] if k == 'literal_cv' else []
+            t = F.PRELUDE_C + F.ext_models(unit, skip=own)
+            if own:      # the literal's spelling: a foreign String spelled "7" (the comparator of the literal table reads its characters)
+                t += '#include "svmodel.h"\nsv_t %s(struct S_ZTSN3ipr6StringE* self) { static unsigned char w[1] = { 55 }; sv_t v; v.f__M_len = 1; v.f__M_str = w; return v; }\n' % own[0]
+            t += 'void h_%s(void)\n{\n' % k
             args = []
             for i, (ct, pn) in enumerate(cps):
                 if i == 0:
                     t += '  %s %s = NEWZ(%s);      /* a freshly constructed Lexicon */\n' % (ct, pn, ct[:-1].strip())
                 else:
                     t += F.operand_decl(ct, pn, i)
-                    if k == 'qualified' and ct == 'unsigned long':
+                    if k in ('qualified', 'literal_cv') and ct == 'unsigned long':
                         t += '  __CPROVER_assume(%s != 0);\n' % pn
                 args.append(pn)
             t += '  _Bool ok = %s(%s);\n' % (cname, ', '.join(args))
@@ -40,7 +45,7 @@ def build(tier, seed):
         return gen
     for k in KINDS:
         o = Ob('C09.' + k, u, None, 'h_' + k, TEXT.get(k, 'type() of a %s node, built by the real factory from arbitrary operands, is the type the property prescribes for its kind' % k.replace('_', ' ')),
-               kind='K1', replay='C09', timeout=600, flags=['--unwind', '12'], objbits=12)
+               kind='K1', replay='C09', timeout=240, flags=['--unwind', '12'], objbits=12)
         o.gen = mkgen(k); obs.append(o)
     # nodes given a type at construction report exactly that type: the type() clauses of C02's factory obligations
     import C02
